@@ -176,6 +176,14 @@ def pyfftw_call(array_in, array_out, direction='forward', axes=None,
         if wisdom:
             pyfftw.import_wisdom(wisdom)
 
+    # A plan can only be re-used for the kind of call it was made for: FFTW
+    # does not allow executing an out-of-place plan in-place or vice versa.
+    if (fftw_plan_in is not None and
+            np.shares_memory(fftw_plan_in.input_array,
+                             fftw_plan_in.output_array) !=
+            np.shares_memory(array_in, array_out)):
+        fftw_plan_in = None
+
     # Copy input array if it hasn't been done yet and the planner is likely
     # to destroy it. If we already have a plan, we don't have to worry.
     planner_destroys = _pyfftw_destroys_input(
@@ -199,8 +207,19 @@ def pyfftw_call(array_in, array_out, direction='forward', axes=None,
             else:
                 threads = cpu_count()
 
+        if (must_copy_array_in and array_out.shape == array_in.shape and
+                array_out.dtype == array_in.dtype and
+                np.shares_memory(array_in, array_out)):
+            # In-place transform: planning may also overwrite the output
+            # array, which here holds the input data. Plan in-place on
+            # the scratch array instead.
+            plan_arr_out = plan_arr_in
+        else:
+            plan_arr_out = array_out
+
         fftw_plan = pyfftw.FFTW(
-            plan_arr_in, array_out, direction=_flag_odl_to_pyfftw(direction),
+            plan_arr_in, plan_arr_out,
+            direction=_flag_odl_to_pyfftw(direction),
             flags=flags, planning_timelimit=planning_timelimit,
             threads=threads, axes=axes)
     else:
